@@ -31,6 +31,7 @@ ASSUMPTIONS = [
     'callbacks registered with seterrcall are global, not scoped by '
     'errstate (the statement scopes the reactions profile only)',
 ]
+ANCHORS = ['ErrorProfile.test', 'ErrorProfile._handle_error', 'seterr', 'geterr', 'seterrcall', 'geterrcall', 'errcheck', 'errstate']
 REQUIRED = ['steps_checked', 'errstate_decorated_calls',
             'errstate_exception_exits', 'refused_calls',
             'reaction_raise', 'reaction_ignore', 'reaction_warn',
